@@ -100,6 +100,14 @@ CHECKS = {
             "discriminator must select exactly the mapped class and errors must be reported instead of guessed.",
             "Each discriminated union has its own variant schemas (the generator rewrites a variant's discriminator property per union). Unions of more than 3 (thorough 4) variants are outside the bound.",
             "4 C14"),
+    "C16": ("model_checking", "bounded exhaustive type-tree / instance enumeration on pristine converters + explicit-state exploration of all operation histories of length<=3 on one shared converter + exhaustive small object graphs for the serialiser",
+            "Laws: every root dataclass over type trees of depth<=2 (thorough 3) x 4 wire-key map variants x instance menus, each on a pristine copy of the bundled converter module: "
+            "encode(decode(j))==j, decode(encode(x))==x, wrong-typed/missing leaves are ValueErrors naming the field. History: every sequence of <=3 structure/unstructure "
+            "operations over 5 types (nested pair, wrapper class with its own hooks, Union, renamed class) on one converter, last result compared with a pristine converter "
+            "(the converter is a global mutated on first use - a state machine whose histories are enumerated). Serialiser: every object graph over <=2/3 dataclass/list/dict "
+            "nodes incl. self loops and 2-cycles must terminate JSON-serialisable without null-valued keys.",
+            "Pristine converter = the module source executed under a fresh name; leaf menus have 2 values; str/bool/bytes coercions are not demanded to fail.",
+            "4 C16"),
 }
 
 NOT_YET = {}
